@@ -100,6 +100,50 @@ M('c06-wsgi-forwarded-host-prefers-x-header', 'C06', 'R2', 'falcon/request.py',
         else:
 """)
 
+# R2(d) fall-back results of plain header accessors on {missing, blank, non-blank}
+_ASGI_ACCEPT = """    @property
+    def accept(self) -> str:
+        # NOTE(kgriffs): Per RFC, a missing accept header is
+        # equivalent to '*/*'
+        try:
+            return self._asgi_headers[b'accept'].decode('latin1') or '*/*'
+        except KeyError:
+            return '*/*'
+
+"""
+_WSGI_ACCEPT = """    @property
+    def accept(self) -> str:
+        \"\"\"Value of the Accept header, or ``'*/*'`` if the header is missing.\"\"\"
+        # NOTE(kgriffs): Per RFC, a missing accept header is
+        # equivalent to '*/*'
+        try:
+            return self.env['HTTP_ACCEPT'] or '*/*'
+        except KeyError:
+            return '*/*'
+
+"""
+# the factory gains default= applied to the MISSING header only; accept is rebuilt with it: blank Accept -> None on one stack (s4-c06-1)
+M2('c06-asgi-accept-factory-default-missing-only', 'C06', 'R2', [
+    {'file': 'falcon/asgi/_request_helpers.py', 'old': "def _header_property(header_name: str) -> Any:",
+     'new': "def _header_property(header_name: str, default: Optional[str] = None) -> Any:"},
+    {'file': 'falcon/asgi/_request_helpers.py', 'old': "        except KeyError:\n            return None\n", 'new': "        except KeyError:\n            return default\n"},
+    {'file': 'falcon/asgi/request.py', 'old': _ASGI_ACCEPT, 'new': ""},
+    {'file': 'falcon/asgi/request.py', 'old': "    auth: Optional[str] = asgi_helpers._header_property('Authorization')\n",
+     'new': "    accept: str = asgi_helpers._header_property('Accept', default='*/*')\n    auth: Optional[str] = asgi_helpers._header_property('Authorization')\n"}])
+M2('c06-wsgi-accept-factory-default-missing-only', 'C06', 'R2', [
+    {'file': 'falcon/request_helpers.py', 'old': "def _header_property(wsgi_name: str) -> Any:",
+     'new': "def _header_property(wsgi_name: str, default: Optional[str] = None) -> Any:"},
+    {'file': 'falcon/request_helpers.py', 'old': "        except KeyError:\n            return None\n", 'new': "        except KeyError:\n            return default\n"},
+    {'file': 'falcon/request.py', 'old': _WSGI_ACCEPT, 'new': ""},
+    {'file': 'falcon/request.py', 'old': "    auth: Optional[str] = helpers._header_property('HTTP_AUTHORIZATION')\n",
+     'new': "    accept: str = helpers._header_property('HTTP_ACCEPT', default='*/*')\n    auth: Optional[str] = helpers._header_property('HTTP_AUTHORIZATION')\n"}])
+# hand-written on both stacks: one sibling maps a blank Accept to None
+M('c06-asgi-accept-blank-gives-none', 'C06', 'R2', 'falcon/asgi/request.py',
+  "return self._asgi_headers[b'accept'].decode('latin1') or '*/*'", "return self._asgi_headers[b'accept'].decode('latin1') or None")
+# factory-built on both stacks: one factory stops normalising a blank header to None
+M('c06-asgi-header-property-keeps-blank', 'C06', 'R2', 'falcon/asgi/_request_helpers.py',
+  "return self._asgi_headers[header_bytes].decode('latin1') or None", "return self._asgi_headers[header_bytes].decode('latin1')")
+
 # --------------------------------------------------------------------- R3
 M('c06-asgi-strip-slash-root', 'C06', 'R3', 'falcon/asgi/request.py',
   """            self.options.strip_url_path_trailing_slash
